@@ -5,7 +5,10 @@
 (* snapshot; Handle::set_config = build the new SharedLogger, set the          *)
 (* facade's max level, store the snapshot.  Configurations are generations     *)
 (* (integers); every delivery is tagged with the generation whose appender     *)
-(* received it.                                                               *)
+(* received it.  Generations differ in their root threshold: records are       *)
+(* logged at a level that even generations admit and odd ones do not, so a     *)
+(* record that is admitted under one snapshot and fanned out under another is  *)
+(* visible as a delivery count that fits neither.                              *)
 (***************************************************************************)
 EXTENDS Naturals, Sequences, FiniteSets, TLC
 CONSTANTS Loggers, Reconfs, Fanout
@@ -23,10 +26,12 @@ LogStart(t) == /\ pcL[t] = "idle" /\ pcL' = [pcL EXCEPT ![t] = "called"] /\ kL' 
 Load(t) == /\ pcL[t] = "called" /\ snapL' = [snapL EXCEPT ![t] = store] /\ pcL' = [pcL EXCEPT ![t] = "loaded"]
            /\ UNCHANGED <<store, kL, pcR, genR, globalMax>>
 \* one appender of the fan-out receives the record; it belongs to generation g
-Deliver(t, g) == /\ pcL[t] = "loaded" /\ g = snapL[t] /\ kL[t] < Fanout
+Admits(g) == g % 2 = 0
+FanoutOf(g) == IF Admits(g) THEN Fanout ELSE 0
+Deliver(t, g) == /\ pcL[t] = "loaded" /\ g = snapL[t] /\ kL[t] < FanoutOf(g)
                  /\ kL' = [kL EXCEPT ![t] = @ + 1]
                  /\ UNCHANGED <<store, pcL, snapL, pcR, genR, globalMax>>
-LogEnd(t) == /\ pcL[t] = "loaded" /\ kL[t] = Fanout /\ pcL' = [pcL EXCEPT ![t] = "idle"]
+LogEnd(t) == /\ pcL[t] = "loaded" /\ kL[t] = FanoutOf(snapL[t]) /\ pcL' = [pcL EXCEPT ![t] = "idle"]
              /\ UNCHANGED <<store, snapL, kL, pcR, genR, globalMax>>
 SetStart(r, g) == /\ pcR[r] = "idle" /\ genR' = [genR EXCEPT ![r] = g] /\ pcR' = [pcR EXCEPT ![r] = "called"]
                   /\ UNCHANGED <<store, pcL, snapL, kL, globalMax>>
